@@ -705,6 +705,53 @@ def rule_min_digits_allowance(col, facts):
 
 
 # ---------------------------------------------------------------------------------------------
+def rule_punctuation_pairs(col, facts):
+    """KEY-constraints (pairwise distinct): is_valid_punctuation answers true for three optional control
+    characters (digit separator, base prefix, base suffix) only when the present ones are pairwise
+    different.  Every accepting path that compares any two of them must compare all three pairs (the last
+    comparison may be the returned expression)."""
+    from rules.core import enum_paths, resolve_env
+    R = "KEY-constraints"
+    f = facts.fn("lexical_util::format_flags::is_valid_punctuation")
+    rets = {i for i, b in enumerate(f.blocks) if f.live(i) and b["t"]["k"] == "return"}
+    NAMES = ("digit_separator", "base_prefix", "base_suffix")
+    def pair_of(e):
+        e = strip_casts(simplify_proj(e))
+        if e[0] == "bin" and e[1] in ("Ne", "Eq"):
+            a = [last_seg(c[1]) for c in expr_calls(e[2]) if last_seg(c[1]) in NAMES]
+            b = [last_seg(c[1]) for c in expr_calls(e[3]) if last_seg(c[1]) in NAMES]
+            if len(a) == 1 and len(b) == 1 and a != b:
+                return frozenset((a[0], b[0])), e[1]
+        return None, None
+    n = 0
+    bad = None
+    for t, atoms, env in enum_paths(f, 0, rets, want_env=True):
+        pairs = set()
+        for e, p in atoms:
+            pr, op = pair_of(e)
+            if pr is not None and isinstance(p, bool) and ((op == "Ne") == p):
+                pairs.add(pr)
+        r = env.get(0)
+        if r is None:
+            continue
+        if r[0] == "const":
+            if r[1] is not True:
+                continue
+        else:
+            pr, op = pair_of(resolve_env(r[1], env))
+            if pr is not None and op == "Ne":
+                pairs.add(pr)
+        if not pairs:
+            continue
+        n += 1
+        if len(pairs) != 3:
+            missing = [sorted(x) for x in (frozenset(("digit_separator", "base_prefix")), frozenset(("digit_separator", "base_suffix")), frozenset(("base_prefix", "base_suffix"))) if x not in pairs]
+            bad = missing
+    col.check(R, "is_valid_punctuation:pairwise", bad is None and n >= 1,
+              "an accepting path compares some of (digit_separator, base_prefix, base_suffix) but never %s: a format where those two are the same character is reported valid" % (bad,), f.loc())
+
+
+# ---------------------------------------------------------------------------------------------
 def rule_bigfloat_bits(col, facts):
     """TBL-limits (Bigfloat): byte_comp scales b+h by radix^|sci_exp| up to 2^1075 and multiplies by a
     64-bit significand: EXPONENT_BIAS + 64 bits at least."""
